@@ -72,14 +72,15 @@ def correspondence(ctx):
                      "payload": {"broken": "the diagram model could not be extracted/compiled", "message": msg}})
         return {"streams": streams, "violations": viol}
     def run_ds(ds):
-        model = subprocess.run([os.path.join(EXTRACT, "gdriver")] + ([ds] if ds else []), stdout=subprocess.PIPE, text=True).stdout
+        is_dir = bool(ds) and os.path.isdir(ds)
+        model = "" if is_dir else subprocess.run([os.path.join(EXTRACT, "gdriver")] + ([ds] if ds else []), stdout=subprocess.PIPE, text=True).stdout
         p = subprocess.run([C.PY, os.path.join(C.TOOLS, "impl_digraph.py"), "plot", "100" if thorough else "12"],
                            stdout=subprocess.PIPE, stderr=subprocess.PIPE, text=True, env=dict(C.IMPL_ENV, VERIF_DIGRAPH_DS=ds or ""), cwd="/tmp")
         impl = p.stdout
         gm, gi = parse(model), parse(impl)
-        d = np.load(os.path.join(C.SCRATCH, "synth", "decay_data.npz") if ds else
+        d = np.load(os.path.join(ds, "decay_data.npz") if is_dir else os.path.join(C.SCRATCH, "synth", "decay_data.npz") if ds else
                     os.path.join(C.REPO, "radioactivedecay/icrp107_ame2020_nubase2020/decay_data.npz"), allow_pickle=True)
-        tag = "diagrams" + ("_" + ds if ds else "")
+        tag = "diagrams" + ("_random_" + os.path.basename(ds) if is_dir else "_" + ds if ds else "")
         names = [str(x) for x in d["nuclides"]]
         progeny = {n: [str(x) for x in pl] for n, pl in zip(names, d["progeny"])}
         bad_prop, ndis = [], 0
@@ -126,7 +127,7 @@ def correspondence(ctx):
             sf_nodes = [n for n in nodes if n.endswith("_SF")]
             if len(sf_nodes) != sum(1 for x in depth for c in progeny[x] if c == "SF"):
                 bad_prop.append((root, "number of 'various' nodes differs from the number of fission branches"))
-            if gm.get(key, {}).get("raw") != g["raw"]:
+            if not is_dir and gm.get(key, {}).get("raw") != g["raw"]:
                 ndis += 1
                 if ndis <= 2:
                     viol.append({"name": f"{tag}-graph-model-{ndis}", "found_input": False, "key": f"graph-model:{root}",
@@ -158,6 +159,16 @@ def correspondence(ctx):
           samples.append({"root": "Mo-99", "nodes": [(dec(n), g_, x) for n, g_, x, _ in gi.get(".".join(str(ord(c)) for c in "Mo-99"), {"N": []})["N"]]})
     run_ds(None)
     run_ds("synth")
+    # random data sets (dense branching, mid-chain stable nuclides, fission): the independent predicates on the implementation's graph
+    import random, shutil
+    rng = random.Random(ctx["seed"] + 16)
+    for _ in range(6 if thorough else 2):
+        seed = rng.randrange(10**6)
+        dd = os.path.join(C.SCRATCH, f"randg_{seed}")
+        rc, out = C.sh([C.PY, os.path.join(C.TOOLS, "synth_dataset.py"), dd, str(seed)], timeout=600)
+        if rc == 0:
+            run_ds(dd)
+        shutil.rmtree(dd, ignore_errors=True)
     return {"streams": streams, "violations": viol, "samples": samples}
 
 
